@@ -295,6 +295,15 @@ func (s *S) comeBack(when string) {
 }
 
 func (s *S) restart() {
+	if s.dropUnsettled && !s.noExcl {
+		// known finding C13-drop-series-not-durable-at-ack: the deleted ids reach the disk with the index's periodic flush, and a
+		// SIGTERM within that interval loses them exactly as kill -9 does (seen in the thorough tier: DROP SERIES, write, clean
+		// restart within ~2 s -> the series is back): the same 6 s margin as before a kill
+		if rest := 6*time.Second - time.Since(s.lastDropAt); rest > 0 {
+			s.c.Excluded("clean-restart-within-6s-of-drop-series")
+			time.Sleep(rest)
+		}
+	}
 	if !s.h.Srv.Term(120 * time.Second) {
 		s.fail("server did not exit within 120 s of SIGTERM")
 	}
